@@ -880,17 +880,20 @@ _dispatch_transform_from_base64(dispatch_data_t data)
 			x += (uint64_t)value;
 
 			if ((count & 0x3) == 0) {
+				if (pad > 2) {
+					free(dest);
+					return (bool)false;
+				}
 				*ptr++ = (x >> 16) & 0xff;
 				*ptr++ = (x >> 8) & 0xff;
 				*ptr++ = x & 0xff;
+				// 2 bytes of pad means only had one char in this group
+				ptr -= pad;
+				pad = 0;
 			}
 		}
 
 		size_t final = (size_t)(ptr - dest);
-		if (pad > 0) {
-			// 2 bytes of pad means only had one char in final group
-			final -= pad;
-		}
 
 		dispatch_data_t val = dispatch_data_create(dest, final, NULL,
 				DISPATCH_DATA_DESTRUCTOR_FREE);
